@@ -20,6 +20,18 @@ CLAIMS = {
             "nothing without an allowed origin; preflight-only and actual-only headers with exactly the configured values). "
             "Tie: strict comparison of whole responses on the serve suite incl. the malformed-request stream.",
             '6/C03', "'allowed origin' is read through the decision oracle (DESIGN 3d/8.1); its identification with pattern denotations is C01."),
+    'C04': ('proof', 'Lean 4 theorem (corollary of C05: validator errors = specification violations) + table-equality obligations over regenerated facts + differential tie',
+            "Theorems C04 / C04_nil / C04_clauses (Props/C04.lean): whenever validation accepts a Config, Spec.prohibitions (the documented prohibitions written field by field, with hand-written Fetch name "
+            "tables proved to have the same members as the regenerated Go tables) is empty: at least one origin; `*` never with credentials or a PNA mode; insecure/psl patterns only under the tolerate flags; "
+            "no invalid/forbidden method, no invalid/forbidden/prohibited header name, `*` response header never with credentials; max-age in [-1,86400]; status 0 or 200-299; at most one PNA mode; an error comes with a nil middleware. "
+            "Tie: validate suite (accept/reject), names suite (exhaustive over 256 bytes and all table entries), lex suite (ParsePattern verdicts).",
+            '6/C04', "Relative to the oracles ext (idna for xn-- labels, publicsuffix, IPv6 netip) and to Pat.parsePattern as the syntactic verdict on one pattern (the grammar itself is C13's business)."),
+    'C05': ('proof', 'Lean 4 theorem: fold-with-accumulator validators = per-element specification (list equality, hence multiset equality) + differential tie',
+            "Theorems C05 / C05_accept / C05_reject / C05_value_verbatim / C05_bounds / C19_count (Props/C05.lean): for every Config and every oracle behaviour the leaves of the returned error are exactly "
+            "Spec.prohibitions - same errors, same multiplicity, same order - so nothing is missed (no early exit) and nothing spurious is reported; a Config without violations is accepted; each error carries the "
+            "value as supplied (forbidden methods are untouched by normalisation) and the documented bounds (regenerated constants proved equal to 204/200/299/5/86400/-1). Tie: validate suite compares the exact error tree "
+            "(shape from errors.Join, type, Value, Reason/Type/bounds), checks non-nil exported pointer types and the `cors: ` message prefix on the Go side.",
+            '6/C05', 'Message texts are produced by fmt.Sprintf in Go and are checked by the harness only (prefix), not modelled.'),
     'C08': ('proof', 'Lean 4 theorem on the sequential state machine + history correspondence',
             "Theorems C08 / C08_error_iff / C08_obs (Props/C08.lean): for every state and every Config that validation rejects, Reconfigure returns the "
             "error and the model state (configuration, debug) is literally unchanged, hence all responses and Config() too. Tie: random histories "
